@@ -20,7 +20,8 @@ import (
 )
 
 // stores compared between a chain and its re-imported twin
-var twinStores = []string{host.StoreKey, "NFT", "MT", "nft", "mt"}
+// (the irismod nft / mt module stores are third-party state and are not compared)
+var twinStores = []string{host.StoreKey, "NFT", "MT"}
 
 // exportModules is the explicit module list for the genesis export (simapp's default list fails, see S19).
 var exportModules = []string{"auth", "bank", "distribution", "staking", "slashing", "gov", "mint", "crisis", "genutil", "params", "upgrade",
@@ -188,6 +189,10 @@ func (n *Net) ExportImport(x string) ([]string, map[string]interface{}) {
 		}
 		info["examples"] = examples
 	}()
+	if _, failed := info["default_export_error"]; failed {
+		// the application's own export command (default module list) does not work at all
+		diff = append(diff, "app:default_export:failed")
+	}
 	sort.Strings(diff)
 	return diff, info
 }
